@@ -943,7 +943,12 @@ func (f *fx) contractCall(ct *callTarget, args []Val, pos token.Pos) Val {
 		for _, ex := range c.Exsures {
 			f.sc.assert(implies(cond, f.specBool(ex, xenv)))
 		}
-		f.raise(cond, postX, f.freshErrPanicValue(), "call "+ct.key, pos)
+		pv := f.freshErrPanicValue()
+		if c.AnyPanic {
+			pv = f.sc.fresh("pval", "Iface")
+			f.sc.assert(T("Bool", "(not (= (itag %s) 0))", pv.S))
+		}
+		f.raise(cond, postX, pv, "call "+ct.key, pos)
 	}
 	if exc.S == "true" {
 		f.curReach = tFalse
@@ -970,6 +975,10 @@ func (f *fx) contractCall(ct *callTarget, args []Val, pos token.Pos) Val {
 	eenv := f.callEnv(ct, args, pre, post, rs)
 	for _, en := range c.Ensures {
 		f.sc.assert(implies(f.curReach, f.specBool(en, eenv)))
+	}
+	for _, en := range c.Assumes {
+		f.sc.assert(implies(f.curReach, f.specBool(en, eenv)))
+		f.top.assumptions[fmt.Sprintf("%s: assumed postcondition %s (%s)", ct.key, en.Src, en.Where)] = true
 	}
 	for _, fr := range c.Fresh {
 		if tv, ok := eenv.vars[fr]; ok {
@@ -1142,6 +1151,8 @@ func (f *fx) finishPanics() {
 	if still.S != "true" {
 		// recovered: continue at the recover block (or return zero values)
 		cond := f.sc.define("edge", and(f.curReach, not(still)))
+		f.regKey("E:recovered", "Bool")
+		f.set(f.cur, "E:recovered", tTrue)
 		if f.fn.Recover != nil {
 			f.execBlock(f.fn.Recover, []*edge{{cond: cond, state: f.cur}})
 			// the recover block ends in a return, which execBlock recorded; it may contain RunDefers? no.
@@ -1207,19 +1218,24 @@ func (f *fx) builtin(b *ssa.Builtin, c *ssa.CallCommon, ci ssa.CallInstruction) 
 		} else {
 			addLen = T("Int", "(sl_len %s)", add.S)
 		}
-		ref := f.newRef("append")
+		fresh := f.newRef("append")
 		newLen := f.sc.define("alen", T("Int", "(+ (sl_len %s) %s)", s.S, addLen.S))
 		newCap := f.sc.fresh("acap", "Int")
 		f.sc.assert(T("Bool", "(>= %s %s)", newCap.S, newLen.S))
-		res := T("Slice", "(mk_slice %s 0 %s %s)", ref.S, newLen.S, newCap.S)
+		// append reuses the backing array when the capacity suffices: the result is then NOT a fresh slice
+		// (elements of the old backing beyond the new length are left unconstrained: an over-approximation)
+		inplace := f.sc.define("inplace", T("Bool", "(and (not (= (sl_ref %s) 0)) (>= (sl_cap %s) %s))", s.S, s.S, newLen.S))
+		ref := f.sc.define("aref", T("Int", "(ite %s (sl_ref %s) %s)", inplace.S, s.S, fresh.S))
+		off := f.sc.define("aoff", T("Int", "(ite %s (sl_off %s) 0)", inplace.S, s.S))
+		res := T("Slice", "(mk_slice %s %s %s (ite %s (sl_cap %s) %s))", ref.S, off.S, newLen.S, inplace.S, s.S, newCap.S)
 		// contents: res[i] = s[i] for i < len(s); res[len(s)+j] = add[j]
 		arr := f.get(f.cur, k)
 		nb := f.sc.fresh("abacking", arraySort("Int", es))
-		f.sc.assert(T("Bool", "(forall ((i Int)) (! (=> (and (<= 0 i) (< i (sl_len %s))) (= (select %s (idx_add 0 i)) (select (select %s (sl_ref %s)) (idx_add (sl_off %s) i)))) :pattern ((select %s (idx_add 0 i)))))", s.S, nb.S, arr.S, s.S, s.S, nb.S))
+		f.sc.assert(T("Bool", "(forall ((i Int)) (! (=> (and (<= 0 i) (< i (sl_len %s))) (= (select %s (idx_add %s i)) (select (select %s (sl_ref %s)) (idx_add (sl_off %s) i)))) :pattern ((select %s (idx_add %s i)))))", s.S, nb.S, off.S, arr.S, s.S, s.S, nb.S, off.S))
 		if add.Sort == "Slice" {
-			f.sc.assert(T("Bool", "(forall ((j Int)) (! (=> (and (<= 0 j) (< j (sl_len %s))) (= (select %s (idx_add 0 (+ (sl_len %s) j))) (select (select %s (sl_ref %s)) (idx_add (sl_off %s) j)))) :pattern ((select (select %s (sl_ref %s)) (idx_add (sl_off %s) j)))))", add.S, nb.S, s.S, arr.S, add.S, add.S, arr.S, add.S, add.S))
+			f.sc.assert(T("Bool", "(forall ((j Int)) (! (=> (and (<= 0 j) (< j (sl_len %s))) (= (select %s (idx_add %s (+ (sl_len %s) j))) (select (select %s (sl_ref %s)) (idx_add (sl_off %s) j)))) :pattern ((select (select %s (sl_ref %s)) (idx_add (sl_off %s) j)))))", add.S, nb.S, off.S, s.S, arr.S, add.S, add.S, arr.S, add.S, add.S))
 			// the common single-element case, stated directly
-			f.sc.assert(T("Bool", "(=> (= (sl_len %s) 1) (= (select %s (idx_add 0 (sl_len %s))) (select (select %s (sl_ref %s)) (idx_add (sl_off %s) 0))))", add.S, nb.S, s.S, arr.S, add.S, add.S))
+			f.sc.assert(T("Bool", "(=> (= (sl_len %s) 1) (= (select %s (idx_add %s (sl_len %s))) (select (select %s (sl_ref %s)) (idx_add (sl_off %s) 0))))", add.S, nb.S, off.S, s.S, arr.S, add.S, add.S))
 		}
 		f.set(f.cur, k, sto(arr, ref, nb))
 		return termVal(f.sc.define("appended", res))
